@@ -58,6 +58,45 @@ Definition regen1 (path : string) (fresh old : list string) : list string * list
 (* ---------------------------------------------------------------- whole code model *)
 Inductive old_state := Missing | Unreadable | Readable (content : string).
 
+(* Text-mode decodability (strict UTF-8, the locale encoding assumed throughout): what CPython's decoder accepts
+   (RFC 3629: no overlong forms, no surrogates, nothing above U+10FFFF). *)
+Definition inr (x lo hi : nat) : bool := Nat.leb lo x && Nat.leb x hi.
+Definition cont (a : ascii) : bool := inr (nat_of_ascii a) 128 191.
+
+Fixpoint utf8_valid (s : string) : bool :=
+  match s with
+  | EmptyString => true
+  | String a r =>
+      let x := nat_of_ascii a in
+      if Nat.ltb x 128 then utf8_valid r
+      else if inr x 194 223 then
+        match r with String b r2 => cont b && utf8_valid r2 | _ => false end
+      else if inr x 224 239 then
+        match r with
+        | String b (String c r3) =>
+            (if Nat.eqb x 224 then inr (nat_of_ascii b) 160 191
+             else if Nat.eqb x 237 then inr (nat_of_ascii b) 128 159
+             else cont b) && cont c && utf8_valid r3
+        | _ => false
+        end
+      else if inr x 240 244 then
+        match r with
+        | String b (String c (String d r4)) =>
+            (if Nat.eqb x 240 then inr (nat_of_ascii b) 144 191
+             else if Nat.eqb x 244 then inr (nat_of_ascii b) 128 143
+             else cont b) && cont c && cont d && utf8_valid r4
+        | _ => false
+        end
+      else false
+  end.
+
+(* what the generator finds at a path: nothing, or a file with these bytes *)
+Definition classify (found : option string) : old_state :=
+  match found with
+  | None => Missing
+  | Some bytes => if utf8_valid bytes then Readable bytes else Unreadable
+  end.
+
 Definition cmodel := list (string * list string).
 
 Fixpoint remove_key (k : string) (m : cmodel) : cmodel :=
@@ -105,6 +144,10 @@ Definition createoutput (m : cmodel) : list (string * string) * list string :=
 
 Definition regen (outdir : string) (old : string -> old_state) (fresh : cmodel) :=
   createoutput (preserve_files outdir old fresh).
+
+(* the same, from the raw directory content (path -> bytes) *)
+Definition regen_dir (outdir : string) (dir : string -> option string) (fresh : cmodel) :=
+  regen outdir (fun fn => classify (dir fn)) fresh.
 
 (* FileSync: body of A's shared tags copied into B, B otherwise verbatim *)
 Definition file_sync (a b : string) : string :=
